@@ -571,9 +571,12 @@ class DFTTransformer(BilateralForwardTransformer):
             else:
                 nu = miscsymbol(dummy + '_%d' % m, integer=True)
             expr2 = self.term(exprs[m + 1], n, k)
-            # Should be a circular convolution.
+            # Circular convolution: DFT{x y} = (X * Y) / N and
+            # IDFT{X Y} = x * y.  The caller (term) divides the
+            # inverse transform by N so compensate for this here.
+            scale = self.N if self.is_inverse else 1 / self.N
             result = sym.Sum(result.subs(k, k - nu) * expr2.subs(k, nu),
-                             (nu, 0, self.N - 1)) / self.N
+                             (nu, 0, self.N - 1)) * scale
 
         return result * const
 
